@@ -17,7 +17,7 @@ Cfg0 == [local |-> "", prefix |-> "", hints |-> <<>>, paths |-> <<>>]
 Render(c, prev) == R(Cfg0, c, prev, <<>>)[1]
 
 (* ---------- Lex: pieces -> Go tokens with automatic semicolon insertion ---------- *)
-Idents == {"a", "b", "f", "L"}
+Idents == {"a", "b", "f", "L", "T", "x", "m", "int", "any", "_"}
 Lits   == {"1"}
 Terminator(t) == t \in Idents \cup Lits \cup {")", "]", "}", "return", "break", "continue", "fallthrough", "++", "--"}
 RECURSIVE LexR(_, _, _)
@@ -32,6 +32,8 @@ RECURSIVE Norm(_, _, _)
 Norm(ts, i, acc) ==
   IF i > Len(ts) THEN acc
   ELSE IF ts[i] = ";" /\ (i = Len(ts) \/ ts[i+1] \in {"}", ")"}) THEN Norm(ts, i + 1, acc)
+  \* a comma may be written before a closing brace / parenthesis that stands on a new line (a multi-line Dict does so)
+  ELSE IF ts[i] = "," /\ i < Len(ts) /\ ts[i+1] \in {"}", ")"} THEN Norm(ts, i + 1, acc)
   ELSE Norm(ts, i + 1, Append(acc, ts[i]))
 Lex(ps) == LET ts == LexR(ps, 1, <<>>) IN Norm(ts, 1, <<>>)
 
@@ -44,7 +46,31 @@ ECall(f, as)  == [n |-> "Call", f |-> f, args |-> as]
 EIdx(x, i)    == [n |-> "Index", x |-> x, i |-> i]
 ESlice(x, lo, hi, mx) == [n |-> "Slice", x |-> x, lo |-> lo, hi |-> hi, max |-> mx]   \* Nil for absent
 EParen(x)     == [n |-> "Paren", x |-> x]
+EUn(o, x)     == [n |-> "Unary", op |-> o, x |-> x]
+ESel(x, sel)  == [n |-> "Selector", x |-> x, sel |-> sel]
+EAssert(x, t) == [n |-> "Assert", x |-> x, typ |-> t]                  \* t = Nil: the x.(type) of a type switch
+EComp(t, es)  == [n |-> "Composite", typ |-> t, elts |-> es]
+EKV(t, ks, vs) == [n |-> "CompositeKV", typ |-> t, keys |-> ks, vals |-> vs]   \* keys in the order of their texts
+EFunc(ps, r, b) == [n |-> "FuncLit", params |-> ps, result |-> r, body |-> b]  \* ps: <<name, type>>..., r: Nil or a type
+\* types (expressions as well)
+TStar(t)      == [n |-> "Star", x |-> t]
+TArr(l, t)    == [n |-> "Array", len |-> l, elt |-> t]                  \* l = Nil: slice
+TMap(k, v)    == [n |-> "Map", key |-> k, val |-> v]
+TChan(t)      == [n |-> "Chan", elt |-> t]
+TStruct(fs)   == [n |-> "Struct", fields |-> fs]                        \* fs: <<name, type>>...
+TIface(ms)    == [n |-> "Interface", methods |-> ms]                    \* ms: <<name, params, result>>...
 \* statements
+SRange(k, v, x, b) == [n |-> "Range", key |-> k, val |-> v, x |-> x, body |-> b]
+SGo(w, c)     == [n |-> "GoDefer", tok |-> w, call |-> c]
+SGoto(l)      == [n |-> "Goto", label |-> l]
+SSend(c, v)   == [n |-> "Send", ch |-> c, val |-> v]
+STypeSwitch(b, x, cs) == [n |-> "TypeSwitch", bind |-> b, x |-> x, clauses |-> cs]
+SSelect(cs)   == [n |-> "Select", clauses |-> cs]                       \* clause list = <<comm stmt>> or <<>> (default)
+\* declarations
+DVar(w, nm, t, v) == [n |-> "VarDecl", tok |-> w, name |-> nm, typ |-> t, val |-> v]      \* w: var | const; t, v may be Nil
+DGroup(w, specs)  == [n |-> "DeclGroup", tok |-> w, specs |-> specs]                      \* specs: <<name, value or Nil>>...
+DType(nm, tps, t) == [n |-> "TypeDecl", name |-> nm, tparams |-> tps, typ |-> t]          \* tps: <<name, constraint>>...
+DFunc(recv, nm, tps, ps, r, b) == [n |-> "FuncDecl", recv |-> recv, name |-> nm, tparams |-> tps, params |-> ps, result |-> r, body |-> b]
 SAssign(l, o, r) == [n |-> "Assign", lhs |-> l, op |-> o, rhs |-> r]
 SExpr(x)      == [n |-> "ExprStmt", x |-> x]
 SInc(x)       == [n |-> "IncDec", x |-> x, op |-> "++"]
@@ -60,7 +86,16 @@ SBranch(w)    == [n |-> "Branch", tok |-> w]
 IsNilNode(x) == "k" \in DOMAIN x
 
 (* ---------- Unparse: the Go grammar, independent of jennifer ---------- *)
-RECURSIVE UE(_), UEs(_, _), US(_), USs(_), UCs(_)
+RECURSIVE UE(_), UEs(_, _), US(_), USs(_), UCs(_), UParams(_), UFields(_), UMethods(_), UKVs(_, _), UTCs(_), UComm(_), UTParams(_), USpecs(_)
+UBlock(ss) == <<"{">> \o USs(ss) \o <<"}">>
+UParams(ps) == IF ps = <<>> THEN <<>> ELSE <<ps[1][1]>> \o UE(ps[1][2]) \o (IF Len(ps) > 1 THEN <<",">> \o UParams(Tail(ps)) ELSE <<>>)
+UFields(fs) == IF fs = <<>> THEN <<>> ELSE <<fs[1][1]>> \o UE(fs[1][2]) \o (IF Len(fs) > 1 THEN <<";">> \o UFields(Tail(fs)) ELSE <<>>)
+UMethods(ms) == IF ms = <<>> THEN <<>> ELSE <<ms[1][1], "(">> \o UParams(ms[1][2]) \o <<")">> \o (IF IsNilNode(ms[1][3]) THEN <<>> ELSE UE(ms[1][3]))
+                  \o (IF Len(ms) > 1 THEN <<";">> \o UMethods(Tail(ms)) ELSE <<>>)
+UKVs(ks, vs) == IF ks = <<>> THEN <<>> ELSE UE(ks[1]) \o <<":">> \o UE(vs[1]) \o (IF Len(ks) > 1 THEN <<",">> \o UKVs(Tail(ks), Tail(vs)) ELSE <<>>)
+UTParams(tps) == IF tps = <<>> THEN <<>> ELSE <<"[">> \o UParams(tps) \o <<"]">>
+USpecs(sp) == IF sp = <<>> THEN <<>> ELSE <<sp[1][1]>> \o (IF IsNilNode(sp[1][2]) THEN <<>> ELSE <<"=">> \o UE(sp[1][2]))
+                  \o (IF Len(sp) > 1 THEN <<";">> \o USpecs(Tail(sp)) ELSE <<>>)
 UEs(es, sep) == IF es = <<>> THEN <<>> ELSE IF Len(es) = 1 THEN UE(es[1]) ELSE UE(es[1]) \o <<sep>> \o UEs(Tail(es), sep)
 UE(e) == CASE e.n = "Ident" -> <<e.name>>
            [] e.n = "Lit" -> <<e.v>>
@@ -71,10 +106,26 @@ UE(e) == CASE e.n = "Ident" -> <<e.name>>
                                 \o (IF IsNilNode(e.hi) THEN <<>> ELSE UE(e.hi))
                                 \o (IF IsNilNode(e.max) THEN <<>> ELSE <<":">> \o UE(e.max)) \o <<"]">>
            [] e.n = "Paren" -> <<"(">> \o UE(e.x) \o <<")">>
+           [] e.n = "Unary" -> <<e.op>> \o UE(e.x)
+           [] e.n = "Selector" -> UE(e.x) \o <<".", e.sel>>
+           [] e.n = "Assert" -> UE(e.x) \o <<".", "(">> \o (IF IsNilNode(e.typ) THEN <<"type">> ELSE UE(e.typ)) \o <<")">>
+           [] e.n = "Composite" -> UE(e.typ) \o <<"{">> \o UEs(e.elts, ",") \o <<"}">>
+           [] e.n = "CompositeKV" -> UE(e.typ) \o <<"{">> \o UKVs(e.keys, e.vals) \o <<"}">>
+           [] e.n = "FuncLit" -> <<"func", "(">> \o UParams(e.params) \o <<")">> \o (IF IsNilNode(e.result) THEN <<>> ELSE UE(e.result)) \o UBlock(e.body)
+           [] e.n = "Star" -> <<"*">> \o UE(e.x)
+           [] e.n = "Array" -> <<"[">> \o (IF IsNilNode(e.len) THEN <<>> ELSE UE(e.len)) \o <<"]">> \o UE(e.elt)
+           [] e.n = "Map" -> <<"map", "[">> \o UE(e.key) \o <<"]">> \o UE(e.val)
+           [] e.n = "Chan" -> <<"chan">> \o UE(e.elt)
+           [] e.n = "Struct" -> <<"struct", "{">> \o UFields(e.fields) \o <<"}">>
+           [] e.n = "Interface" -> <<"interface", "{">> \o UMethods(e.methods) \o <<"}">>
 USs(ss) == IF ss = <<>> THEN <<>> ELSE IF Len(ss) = 1 THEN US(ss[1]) ELSE US(ss[1]) \o <<";">> \o USs(Tail(ss))
-UBlock(ss) == <<"{">> \o USs(ss) \o <<"}">>
 RECURSIVE USsemi(_)
 USsemi(ss) == IF ss = <<>> THEN <<>> ELSE US(ss[1]) \o <<";">> \o USsemi(Tail(ss))
+\* type switch clauses (list of types; <<>> = default) and communication clauses (<<stmt>>; <<>> = default)
+UTCs(cs) == IF cs = <<>> THEN <<>> ELSE
+   (IF cs[1].list = <<>> THEN <<"default", ":">> ELSE <<"case">> \o UEs(cs[1].list, ",") \o <<":">>) \o USsemi(cs[1].body) \o UTCs(Tail(cs))
+UComm(cs) == IF cs = <<>> THEN <<>> ELSE
+   (IF cs[1].list = <<>> THEN <<"default", ":">> ELSE <<"case">> \o US(cs[1].list[1]) \o <<":">>) \o USsemi(cs[1].body) \o UComm(Tail(cs))
 UCs(cs) == IF cs = <<>> THEN <<>> ELSE
    LET c == cs[1]
        one == (IF c.list = <<>> THEN <<"default", ":">> ELSE <<"case">> \o UEs(c.list, ",") \o <<":">>) \o USsemi(c.body)
@@ -94,9 +145,22 @@ US(s) == CASE s.n = "Assign" -> UEs(s.lhs, ",") \o <<s.op>> \o UEs(s.rhs, ",")
                                                \o (IF IsNilNode(s.cond) THEN <<>> ELSE UE(s.cond)) \o <<";">>
                                                \o (IF IsNilNode(s.post) THEN <<>> ELSE US(s.post))) \o UBlock(s.body)
            [] s.n = "Switch" -> <<"switch">> \o (IF IsNilNode(s.tag) THEN <<>> ELSE UE(s.tag)) \o <<"{">> \o UCs(s.clauses) \o <<"}">>
+           [] s.n = "Range" -> <<"for", s.key>> \o (IF s.val = "" THEN <<>> ELSE <<",", s.val>>) \o <<":=", "range">> \o UE(s.x) \o UBlock(s.body)
+           [] s.n = "GoDefer" -> <<s.tok>> \o UE(s.call)
+           [] s.n = "Goto" -> <<"goto", s.label>>
+           [] s.n = "Send" -> UE(s.ch) \o <<"<-">> \o UE(s.val)
+           [] s.n = "TypeSwitch" -> <<"switch">> \o (IF s.bind = "" THEN <<>> ELSE <<s.bind, ":=">>) \o UE(EAssert(s.x, Nil)) \o <<"{">> \o UTCs(s.clauses) \o <<"}">>
+           [] s.n = "Select" -> <<"select", "{">> \o UComm(s.clauses) \o <<"}">>
+           [] s.n = "VarDecl" -> <<s.tok, s.name>> \o (IF IsNilNode(s.typ) THEN <<>> ELSE UE(s.typ)) \o (IF IsNilNode(s.val) THEN <<>> ELSE <<"=">> \o UE(s.val))
+           [] s.n = "DeclGroup" -> <<s.tok, "(">> \o USpecs(s.specs) \o <<")">>
+           [] s.n = "TypeDecl" -> <<"type", s.name>> \o UTParams(s.tparams) \o UE(s.typ)
+           [] s.n = "FuncDecl" -> <<"func">> \o (IF s.recv = <<>> THEN <<>> ELSE <<"(">> \o UParams(s.recv) \o <<")">>) \o <<s.name>> \o UTParams(s.tparams)
+                                  \o <<"(">> \o UParams(s.params) \o <<")">> \o (IF IsNilNode(s.result) THEN <<>> ELSE UE(s.result))
+                                  \o (IF IsNilNode(s.body) THEN <<>> ELSE UBlock(s.body.list))
 
 (* ---------- T: the documented DSL element for each construct (Appendix A) ---------- *)
-RECURSIVE TE(_), TEs(_), TS(_), TSs(_), TCs(_)
+RECURSIVE TE(_), TEs(_), TS(_), TSs(_), TCs(_), TParams(_), TTCs(_), TComm(_)
+TParams(ps) == [i \in DOMAIN ps |-> Stmt(<<Id(ps[i][1]), TE(ps[i][2])>>)]
 TEs(es) == [i \in DOMAIN es |-> TE(es[i])]
 One(items) == IF Len(items) = 1 THEN items[1] ELSE Stmt(<<Grp("list", items)>>)
 TE(e) == CASE e.n = "Ident" -> Stmt(<<Id(e.name)>>)
@@ -109,6 +173,28 @@ TE(e) == CASE e.n = "Ident" -> Stmt(<<Id(e.name)>>)
                                     IF IsNilNode(e.hi) THEN Stmt(<<Empty>>) ELSE TE(e.hi)>>
                                   \o (IF IsNilNode(e.max) THEN <<>> ELSE <<TE(e.max)>>))>>)
            [] e.n = "Paren" -> Stmt(<<Grp("parens", <<TE(e.x)>>)>>)
+           [] e.n = "Unary" -> Stmt(<<Op(e.op), TE(e.x)>>)
+           [] e.n = "Selector" -> Stmt(<<TE(e.x), Op("."), Id(e.sel)>>)                   \* x.Dot(sel)
+           [] e.n = "Assert" -> Stmt(<<TE(e.x), Grp("assert", <<IF IsNilNode(e.typ) THEN Stmt(<<Kw("type")>>) ELSE TE(e.typ)>>)>>)
+           [] e.n = "Composite" -> Stmt(<<TE(e.typ), Grp("values", TEs(e.elts))>>)
+           [] e.n = "CompositeKV" -> Stmt(<<TE(e.typ), Grp("values", <<Dict([i \in DOMAIN e.keys |-> Pair(TE(e.keys[i]), TE(e.vals[i]))],
+                                                                               [i \in DOMAIN e.keys |-> i])>>)>>)
+           [] e.n = "FuncLit" -> Stmt(<<Kw("func"), Grp("params", TParams(e.params))>> \o (IF IsNilNode(e.result) THEN <<>> ELSE <<TE(e.result)>>)
+                                      \o <<Grp("block", TSs(e.body))>>)
+           [] e.n = "Star" -> Stmt(<<Op("*"), TE(e.x)>>)
+           [] e.n = "Array" -> Stmt(<<Grp("index", IF IsNilNode(e.len) THEN <<>> ELSE <<TE(e.len)>>), TE(e.elt)>>)
+           [] e.n = "Map" -> Stmt(<<Grp("map", <<TE(e.key)>>), TE(e.val)>>)
+           [] e.n = "Chan" -> Stmt(<<Kw("chan"), TE(e.elt)>>)
+           [] e.n = "Struct" -> Stmt(<<Grp("struct", TParams(e.fields))>>)
+           [] e.n = "Interface" -> Stmt(<<Grp("interface", [i \in DOMAIN e.methods |->
+                                     Stmt(<<Id(e.methods[i][1]), Grp("params", TParams(e.methods[i][2]))>>
+                                          \o (IF IsNilNode(e.methods[i][3]) THEN <<>> ELSE <<TE(e.methods[i][3])>>))])>>)
+TTCs(cs) == [i \in DOMAIN cs |->
+             IF cs[i].list = <<>> THEN Stmt(<<Kw("default"), Grp("block", TSs(cs[i].body))>>)
+             ELSE Stmt(<<Grp("case", TEs(cs[i].list)), Grp("block", TSs(cs[i].body))>>)]
+TComm(cs) == [i \in DOMAIN cs |->
+             IF cs[i].list = <<>> THEN Stmt(<<Kw("default"), Grp("block", TSs(cs[i].body))>>)
+             ELSE Stmt(<<Grp("case", <<TS(cs[i].list[1])>>), Grp("block", TSs(cs[i].body))>>)]
 TSs(ss) == [i \in DOMAIN ss |-> TS(ss[i])]
 TCs(cs) == [i \in DOMAIN cs |->
              IF cs[i].list = <<>> THEN Stmt(<<Kw("default"), Grp("block", TSs(cs[i].body))>>)
@@ -129,6 +215,24 @@ TS(s) == CASE s.n = "Assign" -> Stmt(<<One(TEs(s.lhs)), Op(s.op), One(TEs(s.rhs)
                                                         IF IsNilNode(s.post) THEN Stmt(<<Empty>>) ELSE TS(s.post) >>),
                                     Grp("block", TSs(s.body))>>)
            [] s.n = "Switch" -> Stmt(<<Grp("switch", IF IsNilNode(s.tag) THEN <<>> ELSE <<TE(s.tag)>>), Grp("block", TCs(s.clauses))>>)
+           [] s.n = "Range" -> Stmt(<<Grp("for", <<Stmt(<<IF s.val = "" THEN Id(s.key) ELSE Grp("list", <<Stmt(<<Id(s.key)>>), Stmt(<<Id(s.val)>>)>>),
+                                                         Op(":="), Kw("range"), TE(s.x)>>)>>), Grp("block", TSs(s.body))>>)
+           [] s.n = "GoDefer" -> Stmt(<<Kw(s.tok), TE(s.call)>>)
+           [] s.n = "Goto" -> Stmt(<<Kw("goto"), Id(s.label)>>)
+           [] s.n = "Send" -> Stmt(<<TE(s.ch), Op("<-"), TE(s.val)>>)
+           [] s.n = "TypeSwitch" -> Stmt(<<Grp("switch", <<Stmt((IF s.bind = "" THEN <<>> ELSE <<Id(s.bind), Op(":=")>>) \o <<TE(EAssert(s.x, Nil))>>)>>),
+                                         Grp("block", TTCs(s.clauses))>>)
+           [] s.n = "Select" -> Stmt(<<Kw("select"), Grp("block", TComm(s.clauses))>>)
+           [] s.n = "VarDecl" -> Stmt(<<Kw(s.tok), Id(s.name)>> \o (IF IsNilNode(s.typ) THEN <<>> ELSE <<TE(s.typ)>>)
+                                      \o (IF IsNilNode(s.val) THEN <<>> ELSE <<Op("="), TE(s.val)>>))
+           [] s.n = "DeclGroup" -> Stmt(<<Kw(s.tok), Grp("defs", [i \in DOMAIN s.specs |->
+                                         Stmt(<<Id(s.specs[i][1])>> \o (IF IsNilNode(s.specs[i][2]) THEN <<>> ELSE <<Op("="), TE(s.specs[i][2])>>))])>>)
+           \* Types() is written even when there are no type parameters: it must render nothing then
+           [] s.n = "TypeDecl" -> Stmt(<<Kw("type"), Id(s.name), Grp("types", TParams(s.tparams)), TE(s.typ)>>)
+           [] s.n = "FuncDecl" -> Stmt(<<Kw("func")>> \o (IF s.recv = <<>> THEN <<>> ELSE <<Grp("params", TParams(s.recv))>>)
+                                       \o <<Id(s.name), Grp("types", TParams(s.tparams)), Grp("params", TParams(s.params))>>
+                                       \o (IF IsNilNode(s.result) THEN <<>> ELSE <<TE(s.result)>>)
+                                       \o (IF IsNilNode(s.body) THEN <<>> ELSE <<Grp("block", TSs(s.body.list))>>))
 
 (* ---------- bounded universe ---------- *)
 Atoms == {EId("a"), EId("b"), ELit("1")}
@@ -154,7 +258,38 @@ Compound0 == {SIf(i, c, b, Nil) : i \in Inits, c \in Conds, b \in Bodies}
 Compound1 == {SIf(Nil, EId("b"), b, e) : b \in Bodies, e \in {SBlock(b2) : b2 \in Bodies} \cup {SIf(Nil, EId("a"), <<>>, Nil)}}
              \cup {SSwitch(t, cs) : t \in {Nil, EId("a")}, cs \in UNION {[1..n -> Clauses] : n \in 0..2}}
              \cup {SFor(Nil, EId("b"), Nil, <<s>>) : s \in Compound0}
-Cases == Simple \cup Compound0 \cup Compound1
+\* second universe: types, declarations, the remaining expression and statement forms
+TInt == EId("int")
+Types2 == {TInt, TStar(EId("T")), TArr(Nil, TInt), TArr(ELit("1"), TInt), TMap(TInt, EId("T")), TChan(TInt), TArr(Nil, TStar(TInt)),
+           TStruct(<<>>), TStruct(<<<<"a", TInt>>>>), TStruct(<<<<"a", TInt>>, <<"b", TArr(Nil, TInt)>>>>),
+           TIface(<<>>), TIface(<<<<"m", <<>>, Nil>>>>), TIface(<<<<"m", <<<<"x", TInt>>>>, TInt>>, <<"f", <<>>, Nil>>>>)}
+Params2 == {<<>>, <<<<"a", TInt>>>>, <<<<"a", TInt>>, <<"b", TStar(EId("T"))>>>>}
+E2 == {EUn(o, x) : o \in {"-", "!", "*", "&", "<-"}, x \in {EId("a"), ECall(EId("f"), <<>>)}}
+      \cup {ESel(EId("a"), "b"), ESel(ECall(EId("f"), <<>>), "x"), ESel(ESel(EId("a"), "b"), "x")}
+      \cup {EAssert(EId("a"), t) : t \in {TInt, TStar(EId("T"))}}
+      \cup {EComp(t, es) : t \in {EId("T"), TArr(Nil, TInt), TMap(TInt, TInt)}, es \in {<<>>, <<ELit("1")>>, <<EId("a"), EId("b")>>}}
+      \cup {EKV(EId("T"), ks, vs) : ks \in {<<EId("a")>>, <<EId("a"), EId("b")>>, <<ELit("1"), EId("a"), EId("b")>>}, vs \in {<<ELit("1"), EId("x"), ECall(EId("f"), <<>>)>>}}
+      \cup {EFunc(ps, r, b) : ps \in Params2, r \in {Nil, TInt}, b \in {<<>>, <<SRet(<<EId("a")>>)>>}}
+      \cup {EBin(EUn("-", EId("a")), "-", EUn("-", EId("b"))), EBin(EId("a"), "&", EUn("^", EId("b"))), ECall(EFunc(<<>>, Nil, <<>>), <<>>)}
+Stmts2 == {SRange(k, v, x, b) : k \in {"a", "_"}, v \in {"", "b"}, x \in {EId("x"), ECall(EId("f"), <<>>)}, b \in {<<>>, <<SInc(EId("a"))>>}}
+          \cup {SGo(w, ECall(EId("f"), as)) : w \in {"go", "defer"}, as \in {<<>>, <<EId("a")>>}}
+          \cup {SGo("go", ECall(EFunc(<<>>, Nil, <<SInc(EId("a"))>>), <<>>))}
+          \cup {SGoto("L"), SSend(EId("a"), EId("b")), SSend(EId("a"), EUn("<-", EId("b")))}
+          \cup {STypeSwitch(bd, EId("x"), cs) : bd \in {"", "a"},
+                   cs \in {<<>>, <<Clause(<<TInt>>, <<>>)>>, <<Clause(<<TInt, TStar(EId("T"))>>, <<SInc(EId("a"))>>), Clause(<<>>, <<SRet(<<>>)>>)>>}}
+          \cup {SSelect(cs) : cs \in {<<>>, <<Clause(<<SSend(EId("a"), EId("b"))>>, <<>>)>>,
+                                         <<Clause(<<SAssign(<<EId("a")>>, ":=", <<EUn("<-", EId("b"))>>)>>, <<SInc(EId("a"))>>), Clause(<<>>, <<SBranch("break")>>)>>,
+                                         <<Clause(<<SExpr(EUn("<-", EId("b")))>>, <<SRet(<<>>)>>)>>}}
+          \cup {SAssign(<<EId("a")>>, ":=", <<x>>) : x \in E2}
+Decls2 == ({DVar(w, "a", t, v) : w \in {"var", "const"}, t \in {Nil, TInt}, v \in {Nil, ELit("1")}}
+             \ {DVar("const", "a", Nil, Nil), DVar("const", "a", TInt, Nil), DVar("var", "a", Nil, Nil)})
+          \cup {DVar("var", "a", t, Nil) : t \in Types2}
+          \cup {DGroup(w, sp) : w \in {"var", "const"}, sp \in {<<>>, <<<<"a", ELit("1")>>>>, <<<<"a", ELit("1")>>, <<"b", Nil>>>>, <<<<"a", EId("b")>>, <<"b", ELit("1")>>, <<"x", Nil>>>>}}
+          \cup {DType("T", tps, t) : tps \in {<<>>, <<<<"x", EId("any")>>>>, <<<<"x", EId("any")>>, <<"m", TInt>>>>}, t \in {TInt, TStruct(<<<<"a", TInt>>>>), TIface(<<>>), TArr(Nil, EId("x"))}}
+          \cup {DFunc(recv, "f", tps, ps, r, b) : recv \in {<<>>, <<<<"x", TStar(EId("T"))>>>>}, tps \in {<<>>, <<<<"x", EId("any")>>>>},
+                   ps \in Params2, r \in {Nil, TInt}, b \in {Nil, SBlock(<<>>), SBlock(<<SRet(<<EId("a")>>)>>)}}
+Cases2 == Stmts2 \cup Decls2
+Cases == Simple \cup Compound0 \cup Compound1 \cup Cases2
 
 Faithful(s) == Lex(Render(TS(s), Nil)) = Norm(US(s), 1, <<>>)
 
